@@ -41,17 +41,25 @@ impl Arena {
         let align = align_of::<T>();
         let size = size_of::<T>();
 
-        let padding = (align - inner.offset % align) % align;
-        let new_offset = inner.offset + padding + size;
+        // padding that makes the ADDRESS of the value (not just its offset) a multiple of `align`
+        fn padding_for(buf: &[MaybeUninit<u8>], offset: usize, align: usize) -> usize {
+            let addr = buf.as_ptr() as usize + offset;
+            (align - addr % align) % align
+        }
 
-        if new_offset > inner.current_buf.len() {
+        let mut padding = padding_for(&inner.current_buf, inner.offset, align);
+
+        if inner.offset + padding + size > inner.current_buf.len() {
             // double previous capacity
             let new_capacity = inner.current_buf.len() * 2;
-            // and make sure capacity is enough to hold at least a single T
-            let new_capacity = new_capacity.max(size);
+            // and make sure capacity is enough to hold at least a single T wherever the buffer lands
+            let new_capacity = new_capacity.max(size + align - 1);
             let new_buf: Box<[MaybeUninit<u8>]> = Box::new_uninit_slice(new_capacity);
             let old_buf = std::mem::replace(&mut inner.current_buf, new_buf);
             inner.old_bufs.push(old_buf);
+            // the new buffer is empty
+            inner.offset = 0;
+            padding = padding_for(&inner.current_buf, 0, align);
         }
 
         let start = inner.offset + padding;
